@@ -1,5 +1,5 @@
 from .. import facts
-from ..rules import tables, opacity, algebra, factors, floatmask, codec, sampling
+from ..rules import tables, opacity, algebra, factors, floatmask, codec, sampling, status
 
 
 def run(ck):
@@ -22,3 +22,4 @@ def run(ck):
     floatmask.r11_blend_degrees(ck, P)
     sampling.r16_skip_only_on_zero_mask_word(ck, P)
     floatmask.r11b_blend_degrees_8bit(ck, P)
+    status.r_same_storage_needs_same_stride(ck, P, 'C01-R13')   # the pixbuf fast paths replace the general source-in-mask pipeline
